@@ -8,6 +8,7 @@ import (
 	"fmt"
 	"os"
 	"path/filepath"
+	"runtime/pprof"
 	"sort"
 	"strconv"
 	"time"
@@ -25,6 +26,13 @@ func main() {
 	if len(os.Args) < 2 {
 		usage()
 	}
+	if pf := os.Getenv("VERIF_PROFILE"); pf != "" {
+		f, err := os.Create(pf)
+		if err == nil {
+			pprof.StartCPUProfile(f)
+			defer pprof.StopCPUProfile()
+		}
+	}
 	switch os.Args[1] {
 	case "list":
 		var ids []string
@@ -39,7 +47,9 @@ func main() {
 		if len(os.Args) < 3 {
 			usage()
 		}
-		os.Exit(check(os.Args[2], os.Args[3:]))
+		code := check(os.Args[2], os.Args[3:])
+		pprof.StopCPUProfile()
+		os.Exit(code)
 	default:
 		if code, ok := extraCommand(os.Args[1], os.Args[2:]); ok {
 			os.Exit(code)
